@@ -13,17 +13,28 @@ from . import strategies as S
 
 # names without underscores / digits-after-underscore so that derived leaf names
 # (a::b -> a_b, x -> x_0) can never collide with declared ones
-can_field = st.from_regex(r"[a-z][a-z0-9]{0,5}", fullmatch=True).filter(
-    lambda x: x not in S.KEYWORDS and x not in S.C_RESERVED and not S.is_tricky(x)
-)
+# words from the tool's own vocabulary: generated code tends to use them for its own members, macros and helpers
+# (GetBus(), CAN_MSG_PERIOD_EVENT, ...), so a user-chosen name that coincides with one must still work
+DOMAIN_FIELDS = ["bus", "dlc", "device", "period", "signal", "protocol", "impl", "service", "method", "schema", "encode",
+                 "decode", "msg", "frame", "length", "count", "index", "version", "status", "state", "mode", "error",
+                 "flags", "crc", "timestamp", "event", "global", "common", "sid", "ext", "mux", "dev", "time", "raw"]
+DOMAIN_TYPES = ["Event", "Status", "Global", "Common", "Frame", "Msg", "Signal", "Device", "Period", "Count", "Max", "Min",
+                "Len", "Time", "Init", "Send", "Mode", "State", "Error", "Dev", "Bus", "Dlc", "Raw"]
+can_field = st.one_of(
+    st.from_regex(r"[a-z][a-z0-9]{0,5}", fullmatch=True), st.from_regex(r"[a-z][a-z0-9]{0,5}", fullmatch=True),
+    st.from_regex(r"[a-z][a-z0-9]{0,5}", fullmatch=True), st.from_regex(r"[a-z][a-z0-9]{0,5}", fullmatch=True),
+    st.from_regex(r"[a-z][a-z0-9]{0,5}", fullmatch=True), st.sampled_from(DOMAIN_FIELDS),
+).filter(lambda x: x not in S.KEYWORDS and x not in S.C_RESERVED and not S.is_tricky(x))
 # long descriptive names as real automotive schemas have them (longer than DBC's 32 and C's 31/63 significant
 # characters once prefixed), with shared prefixes; and "filler"-looking names
 LONG_FIELDS = ["highvoltagebatterycellsminimumvalue", "highvoltagebatterycellsmaximumvalue", "cellvoltagemin",
                "cellvoltagemax", "cellvoltageavg", "reserved", "rsvd0", "rsvd1", "padding", "unused", "spare"]
 LONG_TYPES = ["BatteryManagementSystemStatus", "BatteryManagementSystemStatusMessageExtended", "Vehiclecontrolunitdiag"]
-can_type = st.from_regex(r"[A-Z][a-z0-9]{1,6}", fullmatch=True).filter(
-    lambda x: x not in S.KEYWORDS and x.lower() not in S.C_RESERVED
-)
+can_type = st.one_of(
+    st.from_regex(r"[A-Z][a-z0-9]{1,6}", fullmatch=True), st.from_regex(r"[A-Z][a-z0-9]{1,6}", fullmatch=True),
+    st.from_regex(r"[A-Z][a-z0-9]{1,6}", fullmatch=True), st.from_regex(r"[A-Z][a-z0-9]{1,6}", fullmatch=True),
+    st.from_regex(r"[A-Z][a-z0-9]{1,6}", fullmatch=True), st.sampled_from(DOMAIN_TYPES),
+).filter(lambda x: x not in S.KEYWORDS and x.lower() not in S.C_RESERVED)
 can_device = st.from_regex(r"[a-z][a-z0-9]{1,5}", fullmatch=True).filter(
     lambda x: x not in S.KEYWORDS and x not in S.C_RESERVED and not S.is_tricky(x)
 )
@@ -60,9 +71,11 @@ def leaf_type(draw, cfg: CanCfg, enums: Sequence[M.Enum], remaining: int) -> Opt
     opts: List[M.Type] = []
     w = draw(cfg.widths if cfg.widths is not None else S.widths)
     if w <= remaining:
-        opts.append(M.U(w))
+        # now and then the zero-padded spelling the grammar accepts ("u08", "i04"): same type, other text
+        pad = w <= 9 and draw(st.integers(0, 7)) == 0
+        opts.append(M.U(w, f"u0{w}") if pad else M.U(w))
         if cfg.signed:
-            opts.append(M.I(w))
+            opts.append(M.I(w, f"i0{w}") if pad else M.I(w))
     if cfg.floats and remaining >= 32:
         opts.append(M.F32())
     if cfg.floats and remaining >= 64:
@@ -191,6 +204,20 @@ def can_schema(draw, cfg: Optional[CanCfg] = None) -> M.Schema:
             sbs = draw(can_signal_blocks(s, nm, cfg))
             fields = list(draw(st.permutations(fields)))
             s.decls.append(M.Impl("can", nm, alias, fields, sbs, S.interleave(draw, len(fields), len(sbs))))
+        # a nested leaf named like the message's multiplexer selector ("drive::mode" next to the selector "mode"):
+        # its flattened name ends in "_mode" but it is neither the multiplexer nor multiplexed.  Only when the message
+        # has one binding and the selector carries no signal block of its own (a block's options may legitimately
+        # reach a nested field of the same name, see DESIGN section 10).
+        mine = [i for i in s.impls if i.type == nm and i.protocol == "can"]
+        if len(mine) == 1 and draw(st.booleans()):
+            sels = {v for sb in mine[0].signals for k, v in sb.fields if k == "mux_signal"}
+            sels -= {sb.name for sb in mine[0].signals}
+            nested = [f for f in s.struct(nm).fields if isinstance(M.type_leaf(f.type), M.StructRef)]
+            if sels and nested:
+                sel = draw(st.sampled_from(sorted(sels)))
+                inner = s.struct(M.type_leaf(draw(st.sampled_from(nested)).type).name)
+                if all(g.name != sel for g in inner.fields):
+                    draw(st.sampled_from(inner.fields)).name = sel
     return s
 
 
